@@ -21,8 +21,8 @@ theorem mem_verts {x y : Nat} (h : Skel G x y) : x ∈ verts G ∧ y ∈ verts G
 open Classical in
 /-- **both orientations**: in a closed PDAG with a consistent extension, every undirected edge
     `a - b` is oriented `b -> a` by some consistent extension -/
-theorem Ctx.both (h : Ctx G D) {a b : Nat} (hab : HasUn G a b) :
-    ∃ D', ConsistentExt G D' ∧ (b, a) ∈ D'.dir := by
+theorem Ctx.both_plain (h : Ctx G D) {a b : Nat} (hab : HasUn G a b) :
+    ∃ D', ConsistentExt G D' ∧ (b, a) ∈ D'.dir ∧ D'.bi = [] ∧ D'.circ = [] := by
   let A := (verts G).filter fun v => decide (Bk G a v)
   have hmem : ∀ v, v ∈ A ↔ v ∈ verts G ∧ Bk G a v := by
     intro v; simp [A]
@@ -34,7 +34,13 @@ theorem Ctx.both (h : Ctx G D) {a b : Nat} (hab : HasUn G a b) :
   have hBb : Bk G a b := UnConn.single hab
   obtain ⟨haA, hbA⟩ := hA a b hBa hBb hab.skel
   obtain ⟨E, hE, hba⟩ := (h.ext_rel A.length A (Nat.le_refl _) hv).2 a haA b hbA hab
-  exact ⟨liftDag G D a E, h.lift_ext hE hA, (h.mem_lift (hE.bor hA)).mpr (Or.inl ⟨hBb, hBa, hba⟩)⟩
+  exact ⟨liftDag G D a E, h.lift_ext hE hA, (h.mem_lift (hE.bor hA)).mpr (Or.inl ⟨hBb, hBa, hba⟩),
+    rfl, rfl⟩
+
+theorem Ctx.both (h : Ctx G D) {a b : Nat} (hab : HasUn G a b) :
+    ∃ D', ConsistentExt G D' ∧ (b, a) ∈ D'.dir := by
+  obtain ⟨D', h1, h2, _⟩ := h.both_plain hab
+  exact ⟨D', h1, h2⟩
 
 /-- **Meek's completeness theorem** (Meek 1995, Thm 4; with background knowledge), in the form of
     the hypothesis `C08.MeekT3`. -/
